@@ -474,7 +474,7 @@ func h2u(h common.Hash) uint64 {
 
 func u2h(v uint64) common.Hash { return common.BigToHash(new(big.Int).SetUint64(v)) }
 
-func observe(st *account.AccountDB, univ []common.Address, slots []uint64) map[common.Address]*obsAcct {
+func observe(st *account.AccountDB, univ []common.Address, slots []uint64, light bool) map[common.Address]*obsAcct {
 	out := map[common.Address]*obsAcct{}
 	for _, a := range univ {
 		o := &obsAcct{St: map[uint64]uint64{}, Tr: map[uint64]uint64{}}
@@ -486,10 +486,15 @@ func observe(st *account.AccountDB, univ []common.Address, slots []uint64) map[c
 		} else {
 			o.Code = common.Bytes2Hex(code)
 		}
-		o.Bal = st.GetBalance(a).String()
+		if !light {
+			o.Bal = st.GetBalance(a).String()
+		}
 		for _, s := range slots {
 			if v := h2u(st.GetState(a, u2h(s))); v != 0 {
 				o.St[s] = v
+			}
+			if light {
+				continue
 			}
 			if v := h2u(st.GetTransientState(a, u2h(s))); v != 0 {
 				o.Tr[s] = v
@@ -565,7 +570,7 @@ func runTree(root *Node) (res treeResult) {
 		slots = append(slots, ownSlot(i))
 	}
 	base := append(append([]common.Address{}, callAddrs...), sinkAddr, benAddr, helperAddr, burnerAddr, originAddr)
-	init := observe(st, base, slots)
+	init := observe(st, base, slots, false)
 	m := &model{w: &mworld{a: map[common.Address]*macct{}, tr: map[common.Address]map[uint64]uint64{}}, owner: map[common.Address]int{}}
 	for a, o := range init {
 		x := m.w.acct(a)
@@ -600,10 +605,10 @@ func runTree(root *Node) (res treeResult) {
 	if err != nil {
 		res.errText = err.Error()
 	}
-	pre := observe(st, univ, slots)
+	pre := observe(st, univ, slots, false)
 	gotLogs := obsLogs(st.GetLogs(treeTxHash))
 	r1 := st.IntermediateRoot(true)
-	post := observe(st, univ, slots)
+	post := observe(st, univ, slots, true) // balances and transient storage: compared before Finalise
 
 	add := func(part, text string, frame int, extra bool) {
 		res.diffs = append(res.diffs, diff{part, text, frame, extra})
@@ -642,7 +647,7 @@ func runTree(root *Node) (res treeResult) {
 			if a == originAddr {
 				wBal = init[a].Bal // the origin spends nothing in part (a)
 			}
-			if g.Bal != wBal {
+			if phase == 0 && g.Bal != wBal {
 				// every transfer amount is a distinct power of two: the lowest differing bit
 				// names a frame involved (value effect / CALL value / create endowment)
 				f := -1
@@ -811,32 +816,53 @@ func checkTree(c *fw.Ctx, root *Node) {
 	if len(res.diffs) == 0 {
 		return
 	}
-	// same input, same observation (fresh state object)
-	again := runTree(root.clone())
-	if fmt.Sprint(diffTexts(again.diffs)) != fmt.Sprint(diffTexts(res.diffs)) {
-		c.Violation("C12:nondeterministic", "frame-trees", fmt.Sprintf("two runs of %s differ: %v vs %v", root, diffTexts(res.diffs), diffTexts(again.diffs)), treeCase{"tree", root.clone(), root.String()})
-		return
+	// one violation per observable class
+	type rec struct {
+		sig string
+		d   diff
 	}
+	var recs []rec
 	seen := map[string]bool{}
+	fresh := false
 	for pass := 0; pass < 2; pass++ {
 		for _, d := range res.diffs {
 			if seen[d.part] || (pass == 0 && d.frame < 0) {
 				continue
 			}
 			seen[d.part] = true
-			sig := "C12:" + d.part + ":" + blame(res.nodes, d)
+			b := blame(res.nodes, d)
+			sig := "C12:" + d.part + ":" + b
 			if d.part == "returned-logs" && d.extra {
 				// which kind of frame failed does not matter for the list handed back by Call
-				b := blame(res.nodes, d)
 				for _, kc := range kindClass {
 					b = strings.TrimPrefix(b, kc+"-")
 				}
 				sig = "C12:returned-logs:extra:" + b
 			}
-			c.Violation(sig, "frame-trees", fmt.Sprintf("%s  in tree %s", d.text, root), treeCase{"tree", root.clone(), root.String()})
+			recs = append(recs, rec{sig, d})
+			fresh = fresh || sigCount[sig] < 3
 		}
 	}
+	for _, r := range recs {
+		c.Count("violating_observations", 1)
+		sigCount[r.sig]++
+	}
+	if !fresh {
+		return // the framework keeps three examples per signature; these are all recorded
+	}
+	// same input, same observation (fresh state object)
+	again := runTree(root.clone())
+	if fmt.Sprint(diffTexts(again.diffs)) != fmt.Sprint(diffTexts(res.diffs)) {
+		c.Violation("C12:nondeterministic", "frame-trees", fmt.Sprintf("two runs of %s differ: %v vs %v", root, diffTexts(res.diffs), diffTexts(again.diffs)), treeCase{"tree", root.clone(), root.String()})
+		return
+	}
+	for _, r := range recs {
+		c.Violation(r.sig, "frame-trees", fmt.Sprintf("%s  in tree %s", r.d.text, root), treeCase{"tree", root.clone(), root.String()})
+	}
 }
+
+// sigCount: violations recorded per signature by this worker.
+var sigCount = map[string]int{}
 
 func diffTexts(ds []diff) []string {
 	var out []string
